@@ -442,6 +442,8 @@ def check_history_independence(ctx, lane, max_twins=6):
         if key in seen:
             pri.append(i)
             ctx.probe("reeval_same_gt_frame")
+        elif st.frame_kind == "interp" and any(k[0] == st.manager_gen and k[1] == "loaded" for k in seen):
+            pri.append(i)   # an interpolated frame after loaded frames were evaluated: its neighbours carry history
         seen.add(key)
     chosen = sorted(set(pri[:max_twins] + cand[::stride][:max_twins]))[: max_twins + 2]
     tracking = ctx.plan["config"]["task"] == "tracking"
